@@ -216,13 +216,14 @@ def runtime_checks():
         net = Scaled(FCNN(1, 1, hidden_units=(6,)), scale)
         cases = [('IVP value', IVP(0.3, 1.7), 0.3, 1.7), ('IVP value (derivative mode)', IVP(0.3, 1.7, -0.4), 0.3, 1.7),
                  ('IVP far-away t_0', IVP(800.0, 1.7), 800.0, 1.7), ('IVP far-away negative t_0', IVP(-750.0, -2.5, 0.5), -750.0, -2.5),
+                 ('IVP steep slope away from the origin', IVP(100.3, 0.25, 37.7), 100.3, 0.25), ('IVP steep slope, negative t_0', IVP(-512.7, -0.1, 91.3), -512.7, -0.1),
                  ('DirichletBVP left', DirichletBVP(0.2, 1.1, 1.9, -0.6), 0.2, 1.1), ('DirichletBVP right', DirichletBVP(0.2, 1.1, 1.9, -0.6), 1.9, -0.6),
                  ('DoubleEndedBVP1D DD left', DoubleEndedBVP1D(0.2, 1.9, x_min_val=1.1, x_max_val=-0.6), 0.2, 1.1),
                  ('DoubleEndedBVP1D DD right', DoubleEndedBVP1D(0.2, 1.9, x_min_val=1.1, x_max_val=-0.6), 1.9, -0.6)]
         for name, cond, pt, want in cases:
             try:
                 got = cond.enforce(net, full(pt)).detach().reshape(-1)
-                if not bool(torch.isfinite(got).all()) or float((got - want).abs().max()) > 1e-9 * (1 + abs(want)):
+                if not bool(torch.isfinite(got).all()) or float((got - want).abs().max()) > 4e-16 * (1 + abs(want)):      # exact: the network and the slope are multiplied by exact zeros
                     bad.append(dict(case=name, network_output_scale=scale, point=pt, got=got.tolist(), want=want,
                                     violated='value at the constrained point differs from the prescribed value'))
             except Exception as e:
